@@ -308,6 +308,52 @@ def build(flavour, names):
         return out
 
 
+def build_gen(flavour, gdir, schema_xml, extra_f8c=()):
+    """f8c (asan build) over one generated schema -> gen_*.cpp in gdir -> compile with meta_dump and codec_exec (VERIF_GEN_SCHEMA).
+    Returns dict(f8c_rc, f8c_out, compile_ok, compile_out, meta_dump, codec_exec)."""
+    with Lock(os.path.join(WORK, 'build.lock')):
+        tree_h = file_hash(repo_inputs())
+        f8c = build_f8c(tree_h)
+        lib = build_lib(flavour, tree_h)
+    os.makedirs(gdir, exist_ok=True)
+    res = {'compile_ok': False, 'compile_out': ''}
+    p = run_f8c(f8c, ['-p', 'gen', '-n', 'GEN', '-o', gdir] + list(extra_f8c) + [schema_xml], gdir)
+    res['f8c_rc'], res['f8c_out'] = p.returncode, p.stdout
+    if p.returncode != 0 or not os.path.exists(os.path.join(gdir, 'gen_classes.cpp')):
+        return res
+    fl = FLAVOURS[flavour]
+    jobs = []
+    objs = {}
+    for src, name, defs in [(os.path.join(gdir, 'gen_types.cpp'), 'types', []), (os.path.join(gdir, 'gen_traits.cpp'), 'traits', []),
+                            (os.path.join(gdir, 'gen_classes.cpp'), 'classes', []),
+                            (os.path.join(VERIF, 'harness', 'meta_dump.cpp'), 'meta_dump', []),
+                            (os.path.join(VERIF, 'harness', 'codec_exec.cpp'), 'codec_exec', ['-DVERIF_GEN_SCHEMA=1'])]:
+        o = os.path.join(gdir, name + '.o')
+        objs[name] = o
+        jobs.append(compile_cmd(flavour, src, o, opt='-O0', extra=['-I' + gdir, '-I' + os.path.join(REPO, 'runtime')] + defs))
+    outs = []
+
+    def one(c):
+        e = dict(os.environ)
+        e['CCACHE_DIR'] = CCACHE_DIR
+        q = subprocess.run(c, env=e, stdout=subprocess.PIPE, stderr=subprocess.STDOUT, text=True)
+        return q.returncode, q.stdout
+    with ThreadPoolExecutor(max_workers=5) as ex:
+        outs = list(ex.map(one, jobs))
+    bad = [o for rc, o in outs if rc != 0]
+    if bad:
+        res['compile_out'] = '\n'.join(bad)[-3000:]
+        return res
+    for exe in ('meta_dump', 'codec_exec'):
+        rc, o = one(link_cmd(flavour, [objs[exe], objs['types'], objs['traits'], objs['classes']], os.path.join(gdir, exe), [lib]))
+        if rc != 0:
+            res['compile_out'] = o[-3000:]
+            return res
+        res[exe] = os.path.join(gdir, exe)
+    res['compile_ok'] = True
+    return res
+
+
 def f8c_path():
     with Lock(os.path.join(WORK, 'build.lock')):
         return build_f8c(file_hash(repo_inputs()))
